@@ -150,3 +150,112 @@ func vpC13Docs() []*vpDoc {
 		{fields: []*vpField{id(3), {name: "b", dv: true, length: 4, terms: []*vpTerm{{term: []byte("x"), freq: 3}}}}},
 	}
 }
+
+func init() { vpRegister("vpH_C13_readers", vpH_C13_readers) }
+
+// C13: long-lived dictionaries, dictionary iterators and doc-value readers:
+// a second iterator from the same Dictionary, a Dictionary used for many
+// lookups, and one DocumentValueReader used for a sequence of documents must
+// return what fresh objects return.
+func vpH_C13_readers() {
+	docs := vpC13Docs()
+	// add a second doc-value field and documents without some of the fields
+	docs[0].fields = append(docs[0].fields, &vpField{name: "e", dv: true, length: 1, terms: []*vpTerm{{term: []byte("m"), freq: 1}}})
+	docs[2].fields = append(docs[2].fields, &vpField{name: "e", dv: true, length: 2, terms: []*vpTerm{{term: []byte("n"), freq: 1}, {term: []byte("m"), freq: 1}}})
+	seg := vpBuild(docs, 2)
+	switch vpChoice("kind", 3) {
+	case 1:
+		seg = vpLoad(vpPersist(seg))
+	case 2:
+		mb, _ := vpMergeBytes([]*Segment{seg}, []*roaring.Bitmap{nil}, 1025)
+		seg = vpLoad(mb)
+	}
+	field := []string{"a", "b", "_id"}[vpChoice("field", 3)]
+	enumerate := func(d segment.Dictionary, stopAfter int) []vpObsDictEntry {
+		it := d.Iterator(nil, nil, nil)
+		var out []vpObsDictEntry
+		for {
+			e, err := it.Next()
+			vpMust(err, "DictionaryIterator.Next")
+			if e == nil || (stopAfter >= 0 && len(out) >= stopAfter) {
+				return out
+			}
+			out = append(out, vpObsDictEntry{e.Term(), e.Count()})
+		}
+	}
+	fresh, err := seg.Dictionary(field)
+	vpMust(err, "Dictionary")
+	want := enumerate(fresh, -1)
+	d, err := seg.Dictionary(field)
+	vpMust(err, "Dictionary")
+	// first use: an iterator abandoned after k entries, some term lookups
+	enumerate(d, vpChoice("abandon-after", 3))
+	for _, t := range []string{"x", "absent", "d1"} {
+		_, err := d.PostingsList([]byte(t), nil, nil)
+		vpMust(err, "PostingsList")
+	}
+	got := enumerate(d, -1)
+	vpAssert(len(got) == len(want), "a reused dictionary enumerates the same number of terms")
+	if len(got) == len(want) {
+		for i := range got {
+			vpAssert(got[i].term == want[i].term && got[i].count == want[i].count, "a reused dictionary enumerates the same entries")
+		}
+	}
+	// two live iterators from the same Dictionary, used alternately: each must
+	// enumerate the whole dictionary on its own
+	{
+		k := vpChoice("interleave-after", 3)
+		it1 := d.Iterator(nil, nil, nil)
+		var got1 []vpObsDictEntry
+		for i := 0; i < k; i++ {
+			e, err := it1.Next()
+			vpMust(err, "DictionaryIterator.Next")
+			if e == nil {
+				break
+			}
+			got1 = append(got1, vpObsDictEntry{e.Term(), e.Count()})
+		}
+		it2 := d.Iterator(nil, nil, nil)
+		var got2 []vpObsDictEntry
+		for {
+			e1, err := it1.Next()
+			vpMust(err, "DictionaryIterator.Next")
+			if e1 != nil {
+				got1 = append(got1, vpObsDictEntry{e1.Term(), e1.Count()})
+			}
+			e2, err := it2.Next()
+			vpMust(err, "DictionaryIterator.Next")
+			if e2 != nil {
+				got2 = append(got2, vpObsDictEntry{e2.Term(), e2.Count()})
+			}
+			if e1 == nil && e2 == nil {
+				break
+			}
+		}
+		for _, g := range [][]vpObsDictEntry{got1, got2} {
+			vpAssert(len(g) == len(want), "interleaved iterators of one dictionary each enumerate every term")
+			if len(g) == len(want) {
+				for i := range g {
+					vpAssert(g[i].term == want[i].term && g[i].count == want[i].count, "interleaved iterators of one dictionary each enumerate the same entries")
+				}
+			}
+		}
+	}
+	// one doc-value reader over a sequence of documents vs a fresh reader per document
+	fields := [][]string{{"b", "e"}, {"e"}, {"e", "zz", "b"}}[vpChoice("dvfields", 3)]
+	order := [][]uint64{{0, 1, 2, 3}, {3, 2, 1, 0}, {2, 2, 0, 3}}[vpChoice("order", 3)]
+	r, err := seg.DocumentValueReader(fields)
+	vpMust(err, "DocumentValueReader")
+	collect := func(rd segment.DocumentValueReader, n uint64) []string {
+		var out []string
+		err := rd.VisitDocumentValues(n, func(f string, t []byte) { out = append(out, f+"="+string(t)) })
+		vpMust(err, "VisitDocumentValues")
+		return out
+	}
+	for _, n := range order {
+		fr, err := seg.DocumentValueReader(fields)
+		vpMust(err, "DocumentValueReader")
+		vpAssert(vpStrsEq(collect(r, n), collect(fr, n)), "a reused doc-value reader returns what a fresh one returns")
+	}
+	vpReach("C13 readers end")
+}
